@@ -315,6 +315,10 @@ def ieval(t, env, strict=False):
             return Iv(2.0 ** min(xs[1].lo, 1023), 2.0 ** min(xs[1].hi, 1023) if not math.isinf(xs[1].hi) else INF, True, True)
         if n == "clamp" and len(xs) == 3:
             return imin(imax(xs[0], xs[1]), xs[2])
+    if k == "call" and "__call__" in env:
+        r_ = env["__call__"](t[1], t[2], env)
+        if r_ is not None:
+            return r_
     if strict:
         raise Unknown(fmt(t))
     return Iv.top()
